@@ -145,6 +145,22 @@ CHECKS.update(
     ),
 )
 
+CHECKS.update(
+    C16=dict(
+        category="other",
+        text="A pool of render classes (chain of 3 plus a sibling) is created at run time for eight subsets of classes owning an argument "
+        "namespace. Target class, kind/class of the initial set, the classes of up to two namespaces and up to two further operations "
+        "(update in both forms, convert, |, reflected |, unary +) are solver-forked selectors; every field value is a z3 integer. Acceptance "
+        "and error type, the value held per class (last namespace, else initial set, else default), eq => equal hash (hash lifted to "
+        "uninterpreted functions over structure), membership, and 'no pre-existing object changed' (snapshots of all live objects incl. "
+        "interned defaults) are unsat queries per path; metaclass rejections are enumerated offending class bodies.",
+        note="Trusted: z3, engine, the precedence oracle in harness/C16.py. Class pools beyond 4 classes / 1 field per namespace and longer "
+        "operation sequences are outside the claim.",
+        design="3 C16",
+        technique=TECH_S + "; selector-forked operation sequences",
+    ),
+)
+
 PENDING = {}
 
 
